@@ -298,6 +298,14 @@ func runTargets(t *simrt.Tape, keep bool) simrt.Outcome {
 		return r.outcome(sample, true)
 	}
 	rd := simrt.NewSimReader(t, file.Bytes())
+	// fault: the source fails partway (a read error that is not the end of the file). The targeter may stop with
+	// any error then, but whatever it has handed out must be targets the file describes, whole: never a target
+	// built from the part of a line or of a header block that arrived before the error.
+	srcFails := file.Len() > 0 && t.Prob(1, 6)
+	if srcFails {
+		rd.ErrAt = t.Choose(file.Len())
+		r.stats["fault.source-read-error"]++
+	}
 	var tr vegeta.Targeter
 	if format == "http" {
 		tr = vegeta.NewHTTPTargeter(rd, defBody, defHdr)
@@ -328,6 +336,8 @@ func runTargets(t *simrt.Tape, keep bool) simrt.Outcome {
 		return r.outcome(sample, true)
 	}
 	switch {
+	case srcFails && len(got) <= len(specs):
+		// fewer targets and any error are fine; what was returned is compared below
 	case len(got) > len(specs):
 		r.fail("C14", "C14.extra-target", map[string]string{"fmt": format}, "the file describes %d targets, the targeter returned one more: %s %s", len(specs), got[len(got)-1].Method, got[len(got)-1].URL)
 	case len(got) < len(specs):
